@@ -797,23 +797,6 @@ Section C16.
   Lemma cdec_snd_lookup c sm1 sm2 p s d x i : zlookup s sm1 = zlookup s sm2 ->
     snd (cdec c sm1 p s d x i) = snd (cdec c sm2 p s d x i).
   Proof. intros E. rewrite !cd_snd, (dac_snd_lookup sm1 sm2 p s d x i E). reflexivity. Qed.
-  Lemma dac_fst_lookup sm1 sm2 p s d x i : zlookup s sm1 = zlookup s sm2 ->
-    zlookup s (fst (dac sm1 p s d x i)) = zlookup s (fst (dac sm2 p s d x i)).
-  Proof.
-    intros E. unfold decode_and_claim.
-    destruct (decode p x) as [[m|]| |]; try exact E.
-    destruct (d_pgn m =? CLAIM); cbn [bind].
-    - unfold claim_update. rewrite E.
-      destruct (zlookup s sm2) as [o|] eqn:L.
-      + destruct (i_name o =? x); cbn [bind fst snd].
-        * rewrite !fst_if. congruence.
-        * destruct (iso_of_fields (d_fields m) x); cbn [bind fst snd]; try congruence.
-          rewrite !fst_if, !zlookup_zset. reflexivity.
-      + destruct (iso_of_fields (d_fields m) x); cbn [bind fst snd]; try congruence.
-        rewrite !fst_if, !zlookup_zset. reflexivity.
-    - rewrite !fst_if. exact E.
-  Qed.
-
   (* C16_single: a single-frame call's result depends only on the configuration, the source-map entry of its
      source and the clock input carried by the call *)
   Theorem c16_single c st1 st2 cl : is_fast (c_pgn cl) = Ok (Some false) ->
@@ -950,25 +933,178 @@ Section C16.
     rewrite S. f_equal. apply (IH _ _ (key_of cl)); assumption.
   Qed.
 
+  Lemma prefilter_same_key c st cl cl' : key_of cl' = key_of cl -> c_win cl' = c_win cl ->
+    prefilter c st cl' = prefilter c st cl.
+  Proof. unfold key_of, prefilter. intros K W. inversion K as [[Kp Ks Kd]]. rewrite Kp, Ks, W. reflexivity. Qed.
+
+  Lemma run_stuck c st o rest : Forall (fun cl => step c st cl = (st, o)) rest ->
+    map snd (run decode is_fast c st rest) = map (fun _ => o) rest.
+  Proof.
+    induction rest as [|cl rest IH]; intros F; [reflexivity|].
+    inversion F as [|? ? H Hr]; subst. cbn [run map]. rewrite H. cbn [fst snd]. f_equal. apply IH. exact Hr.
+  Qed.
+
   (* C16_fast_fresh: from the first frame of a fast-packet message with a fresh sequence counter on, the results of
-     the calls on that key are the same after ANY two histories that agree on the source-map entry of the source *)
+     the calls on that key are the same after ANY two histories that agree on the source-map entry of the source
+     (the clock input being the same for the frames of the message) *)
   Theorem c16_fast_fresh c st1 st2 cl rest :
     c_pgn cl <> CLAIM -> is_fast (c_pgn cl) = Ok (Some true) ->
-    Forall (fun cl' => key_of cl' = key_of cl) rest ->
+    Forall (fun cl' => key_of cl' = key_of cl /\ c_win cl' = c_win cl) rest ->
     zlookup (c_src cl) (srcmap st1) = zlookup (c_src cl) (srcmap st2) ->
     fresh_first st1 cl -> fresh_first st2 cl ->
     map snd (run decode is_fast c st1 (cl :: rest)) = map snd (run decode is_fast c st2 (cl :: rest)).
   Proof.
-    intros N F K Es F1 F2. cbn [run map].
-    assert (M1 := step_srcmap_nonclaim decode is_fast db_pgn c st1 cl N).
-    assert (M2 := step_srcmap_nonclaim decode is_fast db_pgn c st2 cl N).
-    assert (G : snd (step c st1 cl) = snd (step c st2 cl) /\
-                klookup (key_of cl) (reasm (fst (step c st1 cl))) = klookup (key_of cl) (reasm (fst (step c st2 cl)))).
-    { unfold fresh_first, rec_at, key_of in *. unfold ctl_step. rewrite (prefilter_lookup c st1 st2 cl Es), F.
-      destruct (prefilter c st2 cl) as [| |i].
-      - (* dropped before reassembly in both *) admit.
-      - admit.
-      - admit. }
-    admit.
-  Admitted.
+    intros N F K Es F1 F2.
+    assert (P12 : prefilter c st1 cl = prefilter c st2 cl) by (apply prefilter_lookup; exact Es).
+    assert (Stuck : forall o, (forall st, prefilter c st cl = prefilter c st2 cl -> step c st cl = (st, o)) ->
+              (forall st cl', prefilter c st cl' = prefilter c st2 cl -> step c st cl' = (st, o)) ->
+              map snd (run decode is_fast c st1 (cl :: rest)) = map snd (run decode is_fast c st2 (cl :: rest))).
+    { intros o H0 H. 
+      assert (R : forall st, prefilter c st cl = prefilter c st2 cl ->
+                   map snd (run decode is_fast c st (cl :: rest)) = map (fun _ => o) (cl :: rest)).
+      { intros st Hp. apply run_stuck. constructor; [apply H0; exact Hp|].
+        eapply Forall_impl; [|exact K]. intros cl' [Kk Kw]. apply H.
+        rewrite (prefilter_same_key c st cl cl' Kk Kw). exact Hp. }
+      rewrite (R st1 P12), (R st2 eq_refl). reflexivity. }
+    destruct (prefilter c st2 cl) as [| |i] eqn:Pre.
+    - apply (Stuck (Ok None)); intros; unfold ctl_step; rewrite H; reflexivity.
+    - apply (Stuck Unmodelled); intros; unfold ctl_step; rewrite H; reflexivity.
+    - clear Stuck. cbn [run map].
+      assert (M1 := step_srcmap_nonclaim decode is_fast db_pgn c st1 cl N).
+      assert (M2 := step_srcmap_nonclaim decode is_fast db_pgn c st2 cl N).
+      assert (G : snd (step c st1 cl) = snd (step c st2 cl) /\
+                  klookup (key_of cl) (reasm (fst (step c st1 cl))) = klookup (key_of cl) (reasm (fst (step c st2 cl)))).
+      { unfold fresh_first, rec_at, key_of in *. unfold ctl_step. rewrite P12, Pre, F.
+        destruct (c_data cl) as [|b0 [|total data]]; try contradiction.
+        destruct F1 as [Z1 S1]. destruct F2 as [_ S2].
+        rewrite (fp_fresh _ b0 total data Z1 S1), (fp_fresh _ b0 total data Z1 S2).
+        destruct (finish _) as [r|r|r p].
+        + cbn [fst snd reasm]. rewrite !klookup_kset, key_eqb_refl. split; reflexivity.
+        + cbn [fst snd reasm]. rewrite !klookup_kset, key_eqb_refl. split; reflexivity.
+        + pose proof (cdec_snd_lookup c (srcmap st1) (srcmap st2) (c_pgn cl) (c_src cl) (c_dst cl) (le_int p) i Es) as S.
+          destruct (cdec c (srcmap st1) (c_pgn cl) (c_src cl) (c_dst cl) (le_int p) i) as [sm1 r1].
+          destruct (cdec c (srcmap st2) (c_pgn cl) (c_src cl) (c_dst cl) (le_int p) i) as [sm2 r2].
+          cbn [fst snd reasm] in *. subst r2. split; [reflexivity|].
+          destruct (is_ok r1); [rewrite !klookup_kremove | rewrite !klookup_kset]; rewrite key_eqb_refl; reflexivity. }
+      destruct G as [G1 G2]. rewrite G1. f_equal.
+      apply (run_agree c rest _ _ (key_of cl)).
+      + eapply Forall_impl; [|exact K]. intros cl' [Kk _]. exact Kk.
+      + exact N.
+      + split; [|exact G2]. unfold key_of. cbn [fst snd]. rewrite M1, M2. exact Es.
+  Qed.
+
+  (* a decoder without any reassembly record is fresh for every first frame *)
+  Lemma fresh_first_new st cl b0 total data : c_data cl = b0 :: total :: data -> b0 mod 32 = 0 ->
+    klookup (key_of cl) (reasm st) = None -> fresh_first st cl.
+  Proof.
+    intros D Z0 L. unfold fresh_first, rec_at. rewrite D, L. split; [exact Z0|]. cbn [rseq new_rec].
+    pose proof (Z.mod_pos_bound (b0 / 32) 8). lia.
+  Qed.
 End C16.
+
+(* ------------------------------------------------------------------ closed statements used by props/C10.v, C11.v, C16.v *)
+Definition db_pgn_ok (decode : Z -> Z -> result (option dmsg)) : Prop :=
+  forall p x m, decode p x = Ok (Some m) -> d_pgn m = p.
+Definition db_claim_id_ok (decode : Z -> Z -> result (option dmsg)) : Prop :=
+  forall p x m, decode p x = Ok (Some m) -> (p = CLAIM <-> lower (d_id m) = lower claim_id).
+
+Theorem c10_main : forall decode is_fast, db_pgn_ok decode -> db_claim_id_ok decode ->
+  forall ex inc exm incm nm cF cU,
+  mk_cfg ex inc exm incm nm = Ok cF -> mk_cfg [] [] exm incm nm = Ok cU ->
+  forall h,
+  outs (run decode is_fast cF init h) = map (restrict (permitted ex inc)) (outs (run decode is_fast cU init h)) /\
+  maps (run decode is_fast cF init h) = maps (run decode is_fast cU init h).
+Proof.
+  intros decode is_fast H1 H2 ex inc exm incm nm cF cU HF HU h.
+  apply (c10_sim decode is_fast H1 H2 ex inc exm incm nm cF cU HF HU h init init). apply sim_init.
+Qed.
+
+(* a concrete database for the non-vacuity examples *)
+Definition s_rudder : str := [114;117;100;100;101;114].
+Definition s_RUDDER : str := [82;85;68;68;69;82].
+Definition s_heading : str := [118;101;115;115;101;108;72;101;97;100;105;110;103].
+Definition s_Garmin : str := [71;97;114;109;105;110].
+Definition s_GARMIN : str := [71;65;82;77;73;78].
+Definition ex_fields (mfr : fval) : list (str * fval) :=
+  [(s_uniqueNumber, FInt 7); (s_manufacturerCode, mfr); (s_deviceInstanceLower, FInt 1); (s_deviceInstanceUpper, FInt 2);
+   (s_deviceFunction, FNone); (s_deviceClass, FNone); (s_systemInstance, FInt 0); (s_industryGroup, FNone);
+   (s_arbitraryAddressCapable, FStr s_Yes)].
+Definition ex_decode (p x : Z) : result (option dmsg) :=
+  if p =? 127245 then (if x =? 0 then Err ERange else Ok (Some (Build_dmsg 127245 s_rudder [] x)))
+  else if p =? 127250 then Ok (Some (Build_dmsg 127250 s_heading [] x))
+  else if p =? 129029 then Ok (Some (Build_dmsg 129029 s_heading [] x))
+  else if p =? CLAIM then (if x =? 99 then Err ERange
+                           else Ok (Some (Build_dmsg CLAIM claim_id (ex_fields (if x <? 50 then FStr s_Garmin else FNone)) x)))
+  else Ok None.
+Definition ex_fast (p : Z) : result (option bool) :=
+  if p =? 129029 then Ok (Some true) else if p =? 5 then Ok None else Ok (Some false).
+
+Lemma ex_db_pgn : db_pgn_ok ex_decode.
+Proof.
+  intros p x m. unfold ex_decode.
+  destruct (Z.eqb_spec p 127245); [destruct (x =? 0); intros H; inversion H; subst; reflexivity|].
+  destruct (Z.eqb_spec p 127250); [intros H; inversion H; subst; reflexivity|].
+  destruct (Z.eqb_spec p 129029); [intros H; inversion H; subst; reflexivity|].
+  destruct (Z.eqb_spec p CLAIM); [destruct (x =? 99); intros H; inversion H; subst; reflexivity|].
+  discriminate.
+Qed.
+Lemma ex_db_claim_id : db_claim_id_ok ex_decode.
+Proof.
+  intros p x m. unfold ex_decode.
+  destruct (Z.eqb_spec p 127245); [destruct (x =? 0); intros H; inversion H; subst; split; [discriminate | vm_compute; discriminate]|].
+  destruct (Z.eqb_spec p 127250); [intros H; inversion H; subst; split; [discriminate | vm_compute; discriminate]|].
+  destruct (Z.eqb_spec p 129029); [intros H; inversion H; subst; split; [discriminate | vm_compute; discriminate]|].
+  destruct (Z.eqb_spec p CLAIM); [destruct (x =? 99); intros H; inversion H; subst; split; reflexivity|].
+  discriminate.
+Qed.
+Lemma ex_fast_claim : ex_fast CLAIM = Ok (Some false).
+Proof. reflexivity. Qed.
+
+(* ------------------------------------------------------------------ C16: determinism and the product of instances *)
+Theorem c16_deterministic : forall decode is_fast c h1 h2, h1 = h2 ->
+  run decode is_fast c init h1 = run decode is_fast c init h2.
+Proof. intros. subst. reflexivity. Qed.
+
+Section Product.
+  Variable decode : Z -> Z -> result (option dmsg).
+  Variable is_fast : Z -> result (option bool).
+  (* several decoders alive at once, each with its own configuration and state; a call goes to decoder j *)
+  Fixpoint sys_step (s : list (cfg * state)) (j : nat) (cl : call) : list (cfg * state) * result (option msg) :=
+    match s, j with
+    | [], _ => ([], Ok None)
+    | (c, st) :: t, O => let so := ctl_step decode is_fast c st cl in ((c, fst so) :: t, snd so)
+    | x :: t, S j' => let r := sys_step t j' cl in (x :: fst r, snd r)
+    end.
+  Fixpoint sys_run (s : list (cfg * state)) (h : list (nat * call)) : list (nat * result (option msg)) :=
+    match h with
+    | [] => []
+    | (j, cl) :: t => let r := sys_step s j cl in (j, snd r) :: sys_run (fst r) t
+    end.
+  Definition proj {A} (j : nat) (l : list (nat * A)) : list A := map snd (filter (fun x => Nat.eqb (fst x) j) l).
+
+  Lemma sys_step_same s : forall j cl c st, nth_error s j = Some (c, st) ->
+    snd (sys_step s j cl) = snd (ctl_step decode is_fast c st cl) /\
+    nth_error (fst (sys_step s j cl)) j = Some (c, fst (ctl_step decode is_fast c st cl)).
+  Proof.
+    induction s as [|[c0 st0] t IH]; intros j cl c st H; destruct j; simpl in *; try discriminate.
+    - inversion H; subst. split; reflexivity.
+    - apply IH. exact H.
+  Qed.
+  Lemma sys_step_other s : forall i j cl, i <> j -> nth_error (fst (sys_step s i cl)) j = nth_error s j.
+  Proof.
+    induction s as [|[c0 st0] t IH]; intros i j cl N; destruct i; simpl; try reflexivity.
+    - destruct j; [contradiction | reflexivity].
+    - destruct j; [reflexivity|]. simpl. apply IH. intros E. apply N. congruence.
+  Qed.
+
+  (* what decoder j returns in the system is what it returns alone on the calls addressed to it *)
+  Theorem c16_product : forall h s j c st, nth_error s j = Some (c, st) ->
+    proj j (sys_run s h) = map snd (run decode is_fast c st (proj j h)).
+  Proof.
+    unfold proj. induction h as [|[i cl] h IH]; intros s j c st H; [reflexivity|].
+    cbn [sys_run filter fst]. destruct (Nat.eqb_spec i j) as [->|N].
+    - destruct (sys_step_same s j cl c st H) as [A B].
+      cbn [map snd run]. rewrite A. f_equal. apply IH. exact B.
+    - apply IH. rewrite sys_step_other by exact N. exact H.
+  Qed.
+End Product.
